@@ -32,7 +32,7 @@ META = {
 }
 GEN = []
 TARGETS = ["Base/StdioUtf8", "Model/StdioOut", "Model/Lines", "Spec/C05", "Spec/C06", "Proofs/StdioUtf8", "Proofs/Lines",
-           "Proofs/StdioOut", "Props/C06"]
+           "Proofs/StdioOut", "Proofs/StdioOutMerge", "Props/C06"]
 
 TRUSTED = [
     "Coq 8.16.1 kernel (coqc); coqchk re-check in the thorough tier; vm_compute/native_compute not used",
@@ -119,6 +119,8 @@ def build(desc):
                                                              JSONRPCResponse, JSONRPCError)
     shape, tag = desc["shape"], desc["tag"]
     pl = PAYLOADS[desc["p"] % len(PAYLOADS)]
+    if desc.get("large"):
+        pl = {"large": "x" * 70_000, "tail": "\u2028"}        # a line beyond 64 KiB: still ONE write
     mid = f"m{tag}" if tag % 2 else tag
     if shape == "typed-req":
         d = {"jsonrpc": "2.0", "id": mid, "method": "x/y", "params": pl}
@@ -338,6 +340,10 @@ def gen_sequences(ctx):
             d = {"shape": shape, "tag": next(tag), "p": p}
             seqs.append(([d], False))
             seqs.append(([desc("dict"), d, desc("typed-req")], p % 4 == 0))
+    # (b') a message whose line is larger than 64 KiB, in each accepted shape, between two ordinary messages
+    for shape in ("typed-req", "dict", "raw-compact", "raw-pretty"):
+        d = {"shape": shape, "tag": next(tag), "p": 0, "large": True}
+        seqs.append(([desc("dict"), d, desc("typed-res")], shape == "dict"))
     # (c) seeded long sequences over all variants
     names = list(SHAPES)
     for _ in range(ctx.budget(60, 600)):
